@@ -16,7 +16,7 @@ def compile_regex(phrase, start_tag, end_tag):
     indices = get_tag_indices(phrase, start_tag, end_tag)
     for i, idx in enumerate(indices[::2]):
         raw = phrase[end:idx]
-        end = indices[i+1]
+        end = indices[2*i+1]
         part = phrase[idx+1:end-1]
         pattern = pattern + '%s(%s)' % (re.escape(raw), part)
         regex_vars.insert(i//2, re.compile('^%s$' % part))
